@@ -4,7 +4,8 @@ usage: ingest_mutant.py <Cxx> <i>   (reads /tmp/mut/out/<Cxx>/patch<i>.diff, dem
 import json, os, shutil, subprocess, sys
 V = os.path.dirname(os.path.dirname(os.path.abspath(__file__)))
 pid, i = sys.argv[1], sys.argv[2]
-wt, out = '/tmp/mut/' + pid, '/tmp/mut/out/' + pid
+base = os.environ.get('MUT_BASE', '/tmp/mut')
+wt, out = base + '/' + pid, base + '/out/' + pid
 env = dict(os.environ, GOFLAGS='-mod=mod', GOPROXY='off')
 def sh(cmd, cwd=None, timeout=1200):
     return subprocess.run(cmd, cwd=cwd, env=env, stdout=subprocess.PIPE, stderr=subprocess.STDOUT, timeout=timeout)
@@ -38,7 +39,7 @@ print(json.dumps(conf, indent=1))
 print('--- demo on changed build (tail)'); print(pm.stdout.decode(errors='replace')[-1200:])
 print('--- demo on pristine build (tail)'); print(pp.stdout.decode(errors='replace')[-600:])
 ok = conf['builds'] and conf['tests_pass'] and not conf['touches_tests'] and conf['demo_outputs_differ']
-dst = os.path.join(V, 'seeded', '%s-%s' % (pid, i))
+dst = os.path.join(V, 'seeded', '%s-%s%s' % (pid, os.environ.get('MUT_TAG', ''), i))
 if ok:
     os.makedirs(dst, exist_ok=True)
     shutil.copyfile(patch, os.path.join(dst, 'patch.diff'))
